@@ -1070,6 +1070,39 @@ func runC18(args []string) {
 				c18RunComponent(comp, real, user, "foreign")
 			}
 		}
+		// 2b. near misses of specified keys (first letter in the other case, a blank before or after, a trailing dot)
+		// carrying a value that IS valid for the key they resemble: such a key is not in the specification -- a model
+		// reports it, and no component starts using the value
+		for _, k := range keys {
+			spec := comp.spec(k)
+			if spec == nil || k == "" {
+				continue
+			}
+			var valid interface{}
+			for _, cand := range c18KeyPalette(spec) {
+				if acc, uns := c18Accepts(&spec.Validator, cand); acc && !uns {
+					valid = cand
+					break
+				}
+			}
+			if valid == nil {
+				continue
+			}
+			first := k[:1]
+			other := strings.ToLower(first)
+			if other == first {
+				other = strings.ToUpper(first)
+			}
+			for _, fk := range []string{other + k[1:], " " + k, k + ".", strings.ToUpper(k)} {
+				if comp.spec(fk) != nil {
+					continue
+				}
+				user := []c18KV{{fk, valid}}
+				c18RunGeneric(comp, real, "all", user, false, "near-miss-key")
+				c18RunGeneric(comp, real, "enforced", user, false, "near-miss-key")
+				c18RunComponent(comp, real, user, "near-miss-key")
+			}
+		}
 		// 3. random combinations
 		for n := 0; n < combos; n++ {
 			user := []c18KV{}
